@@ -1534,6 +1534,9 @@ impl Engine for StorEngine {
     if prop == "C04" && !ctx::has_violation() && ctx::choose(8) == 0 {
       lookalike_reference_and_insert();
     }
+    if prop == "C04" && !ctx::has_violation() && ctx::choose(12) == 0 {
+      relative_url_without_fragment();
+    }
     if prop == "C04" && !ctx::has_violation() && ctx::choose(16) == 0 {
       custom_method_data_with_property();
     }
@@ -1634,6 +1637,71 @@ fn lookalike_reference_and_insert() {
   }
 }
 
+/// A query handed over as the relative part of a DID URL that has a path and / or a query but NO fragment names no
+/// entry: entries are found by fragment. The document holds a method and a service whose FRAGMENT spells exactly that
+/// path / query text (`#/keys?version=1`; '/' and '?' are fragment characters), which a lookup that renders the relative
+/// URL to text and reads the text as a bare fragment would find.
+fn relative_url_without_fragment() {
+  let did = "did:sim:relurl";
+  let mut doc = CoreDocument::builder(Default::default()).id(CoreDID::parse(did).unwrap()).build().expect("empty doc");
+  let (path, query): (Option<&str>, Option<&str>) = [(Some("/keys"), Some("version=1")), (Some("/k/1"), None), (None, Some("service=files"))][ctx::choose(3)];
+  let text = format!("{}{}", path.unwrap_or(""), query.map(|q| format!("?{q}")).unwrap_or_default());
+  let mut m = harness_method(did, "placeholder", 4);
+  let Ok(mid) = DIDUrl::parse(format!("{did}#{text}")) else { return };
+  if m.set_id(mid.clone()).is_err() {
+    return;
+  }
+  let scope: Scope = if ctx::choose(2) == 0 { None } else { Some(ctx::choose(5)) };
+  if doc.insert_method(m, to_scope(scope)).is_err() {
+    return;
+  }
+  let with_service = Service::from_json_value(serde_json::json!({"id": format!("{did}#{text}"), "type": "SimService", "serviceEndpoint": "https://sim.example/rel"}))
+    .ok()
+    .map(|s| doc.insert_service(s).is_ok())
+    .unwrap_or(false);
+  // the relative URL: built member by member, no fragment
+  let Ok(full) = DIDUrl::parse(format!("{did}{text}")) else { return };
+  let rel = full.url();
+  if rel.fragment().is_some() || rel.to_string() != text {
+    return;
+  }
+  ctx::stat("probe.relative_url_without_fragment");
+  ctx::sched("relurl", ctx::choose(3) as u64);
+  let mut scopes: Vec<Option<Scope>> = vec![None, Some(None)];
+  scopes.extend((0..5).map(|r| Some(Some(r))));
+  for sc in scopes {
+    if let Some(found) = doc.resolve_method(rel, sc.map(to_scope)) {
+      ctx::violation(
+        "C04",
+        "C04.resolve_method_matches_model",
+        "relative-url-without-fragment/resolves-a-method",
+        format!("resolve_method(relative URL {text:?} without fragment, {:?}) returned {}", sc.map(scope_name), found.id()),
+      );
+      break;
+    }
+  }
+  if with_service {
+    if let Some(found) = doc.resolve_service(rel) {
+      ctx::violation(
+        "C04",
+        "C04.resolve_service_matches_model",
+        "relative-url-without-fragment/resolves-a-service",
+        format!("resolve_service(relative URL {text:?} without fragment) returned {}", found.id()),
+      );
+    }
+  }
+  // the same text handed over as a string IS a fragment query (documented: anything that is not a DID URL is read as
+  // a fragment) and finds the method
+  if doc.resolve_method(format!("#{text}").as_str(), None).map(|f| f.id() != &mid).unwrap_or(true) {
+    ctx::violation(
+      "C04",
+      "C04.resolve_method_matches_model",
+      "relative-url-without-fragment/fragment-text-not-found",
+      format!("resolve_method(\"#{text}\") does not find the method {mid}"),
+    );
+  }
+}
+
 /// Method and service ids are DID URLs: besides the fragment they may carry a path or a query
 /// (`did:..?versionId=2#k1`, `did:../registry#s1`). A document that accepted such entries must still round-trip
 /// through its JSON form, resolve them by their full id and give them back on removal. (Kept apart from the main
@@ -1642,10 +1710,21 @@ fn url_component_ids() {
   let did = "did:sim:urlids";
   let mut doc = CoreDocument::builder(Default::default()).id(CoreDID::parse(did).unwrap()).build().expect("empty doc");
   let empty = doc.clone();
-  let part = ["?versionId=2", "/keys", "/a/b?x=1"][ctx::choose(3)];
-  let mid = format!("{did}{part}#k1");
+  let part = ["?versionId=2", "/keys", "/a/b?x=1", "??a=1", "?a??b"][ctx::choose(5)];
+  let mut mid = format!("{did}{part}#k1");
   let mut m = harness_method(did, "k1", 9);
-  let Ok(url) = DIDUrl::parse(&mid) else { return };
+  let Ok(mut url) = DIDUrl::parse(&mid) else { return };
+  if part.starts_with("??") {
+    // a query that itself begins with '?' (legal: '?' is a query character), set through the setter, which takes the
+    // query with its delimiter; the id is what the URL then prints
+    let Ok(mut u) = DIDUrl::parse(format!("{did}#k1")) else { return };
+    if u.set_query(Some(part)).is_err() {
+      return;
+    }
+    mid = u.to_string();
+    url = u;
+    ctx::stat("probe.query_beginning_with_question_mark");
+  }
   if m.set_id(url.clone()).is_err() {
     return;
   }
